@@ -985,9 +985,12 @@ impl NotificationProtocol {
         match context.state {
             // protocol can only request a new outbound substream to be opened if the state is
             // `Closed` other states imply that it's already open
+            //
+            // `pending_open` may name a substream whose open failure has already been processed;
+            // that substream will never be reported again, so it must not be waited for.
             PeerState::Closed {
                 pending_open: Some(substream_id),
-            } => {
+            } if self.pending_outbound.contains_key(&substream_id) => {
                 tracing::trace!(
                     target: LOG_TARGET,
                     ?peer,
